@@ -433,3 +433,46 @@ def m_set_file_time(ex, c, a, m):
 @model(r'<File as Debug>::fmt|<PathBuf as Debug>::fmt')
 def m_dbg(ex, c, a, m):
     return Ok(UNIT)
+
+
+@model(r'(std::fs::)?hard_link::<.+>')
+def m_hard_link(ex, c, a, m):
+    o = osm(ex)
+    r = o.lookup(a[0])
+    if r[0] == 'err':
+        return E(r[1])
+    if isinstance(r[2], OsDir):
+        return E('PermissionDenied')
+    dst = o.comps(a[1])
+    p = o.parent_dir(dst)
+    if p[0] == 'err':
+        return E(p[1])
+    if o.find(dst)[1] is not None:
+        return E('AlreadyExists')
+    o.nodes[dst] = r[2]            # a second name for the same inode
+    return Ok(UNIT)
+
+
+@model(r'FileTimes::new')
+def m_filetimes_new(ex, c, a, m):
+    return Adt('FileTimes', None, [NONE(), NONE()])
+
+
+@model(r'FileTimes::(set_modified|set_accessed)')
+def m_filetimes_set(ex, c, a, m):
+    ft = d(a[0])
+    return Adt('FileTimes', None, [Some(a[1]), ft.fields[1]] if m.group(1) == 'set_modified' else [ft.fields[0], Some(a[1])])
+
+
+@model(r'File::(set_times|set_modified)')
+def m_file_set_times(ex, c, a, m):
+    h = d(a[0])
+    if m.group(1) == 'set_modified':
+        h.node.mtime = a[1]
+        return Ok(UNIT)
+    ft = d(a[1])
+    if ft.fields[0].variant == 'Some':
+        h.node.mtime = ft.fields[0].fields[0]
+    if ft.fields[1].variant == 'Some':
+        h.node.atime = ft.fields[1].fields[0]
+    return Ok(UNIT)
